@@ -176,6 +176,53 @@ pub fn emit(dir: &Path) {
       db.rels.insert("reach".into(), vec![vec![i(7), i(9)], vec![i(8), i(2)]]);
       write(dir, "KF-8.json", "C08", "KF-8", Program { rels, rules, macros: vec![mac] }, Kind::Ascent, vec![], db);
    }
+   // KF-11: ternary eqrel filled in a recursive stratum
+   {
+      let k = Ty::I32;
+      let t = Ty::U32;
+      let mut rr = rel("rr", vec![k, t, t], false);
+      rr.ds = Some(Ds::EqRel);
+      let rels = vec![rr, rel("edge", vec![k, t, t], true), rel("nxt", vec![t, t], true), rel("out", vec![k, t, t], false)];
+      let rules = vec![
+         Rule { heads: vec![hd("rr", vec![v("k"), v("x"), v("y")])], body: vec![cl("edge", vec![av("k"), av("x"), av("y")])] },
+         Rule {
+            heads: vec![hd("rr", vec![v("k"), v("y"), v("z")])],
+            body: vec![cl("rr", vec![av("k"), av("y"), av("x")]), cl("nxt", vec![av("y"), av("z")])],
+         },
+         Rule { heads: vec![hd("out", vec![v("k"), v("x"), v("y")])], body: vec![cl("rr", vec![av("k"), av("x"), av("y")])] },
+      ];
+      let mut db = Db::default();
+      db.rels.insert("edge".into(), vec![vec![i(0), i(0), i(0)], vec![i(1), i(2), i(2)]]);
+      db.rels.insert("nxt".into(), vec![vec![i(0), i(1)], vec![i(2), i(0)]]);
+      write(dir, "KF-11.json", "C10", "KF-11", Program { rels, rules, macros: vec![] }, Kind::Ascent, vec![], db);
+   }
+   // KF-12: ternary eqrel, delta pair implied for an element that was not mentioned in the iteration
+   {
+      let k = Ty::I32;
+      let t = Ty::U32;
+      let mut rr = rel("rr", vec![k, t, t], false);
+      rr.ds = Some(Ds::EqRel);
+      let rels = vec![
+         rr,
+         rel("edge", vec![k, t, t], true),
+         rel("nxt", vec![t, t], true),
+         rel("pairs", vec![t, t], true),
+         rel("out", vec![k, t, t], false),
+      ];
+      let rules = vec![
+         Rule { heads: vec![hd("rr", vec![v("k"), v("x"), v("y")])], body: vec![cl("edge", vec![av("k"), av("x"), av("y")])] },
+         Rule {
+            heads: vec![hd("rr", vec![v("k"), v("x"), v("zz")])],
+            body: vec![cl("pairs", vec![av("x"), av("y")]), cl("rr", vec![av("k"), av("x"), av("y")]), cl("nxt", vec![av("y"), av("zz")])],
+         },
+         Rule { heads: vec![hd("out", vec![v("k"), v("x"), v("y")])], body: vec![cl("rr", vec![av("k"), av("x"), av("y")])] },
+      ];
+      let mut db = Db::default();
+      db.rels.insert("edge".into(), vec![vec![i(0), i(2), i(4)]]);
+      db.rels.insert("pairs".into(), vec![vec![i(2), i(2)], vec![i(4), i(1)]]);
+      db.rels.insert("nxt".into(), vec![vec![i(2), i(1)], vec![i(1), i(0)]]);
+      write(dir, "KF-12.json", "C10", "KF-12", Program { rels, rules, macros: vec![] }, Kind::Ascent, vec![], db);
+   }
 }
 
 fn write_hist(dir: &Path, file: &str, prop: &str, base: &str, prog: Program, kind: Kind, input: Db, ops: &str) {
